@@ -9,8 +9,10 @@ import (
 	"net/http"
 	"net/http/httptest"
 	"os"
+	"path/filepath"
 	"regexp"
 	"runtime/debug"
+	"sort"
 	"strings"
 	"sync"
 	"time"
@@ -272,6 +274,109 @@ func (s *Session) Run() (res Result) {
 	return res
 }
 
+// FakeObj is an object tool that "opens" every binary of a profile: it knows one symbol per
+// function name (each covering the addresses the profile attributes to that name inside the
+// mapping) and disassembles to one instruction per profile address, without file/line
+// information (a stripped binary).
+type FakeObj struct {
+	Prof *profile.Profile
+}
+
+type fakeObjFile struct {
+	o     *FakeObj
+	m     *profile.Mapping
+	name  string
+	start uint64
+}
+
+// Open implements plugin.ObjTool.
+func (o *FakeObj) Open(file string, start, limit, offset uint64, rs string) (plugin.ObjFile, error) {
+	if os.Getenv("FAKEOBJ_DEBUG") != "" {
+		fmt.Fprintf(os.Stderr, "FakeObj.Open %q %x\n", file, start)
+	}
+	for _, m := range o.Prof.Mapping {
+		if m.File == file && m.Start == start {
+			return &fakeObjFile{o: o, m: m, name: file, start: start}, nil
+		}
+	}
+	return nil, fmt.Errorf("fake objtool: no such file %s", file)
+}
+
+// Disasm implements plugin.ObjTool.
+func (o *FakeObj) Disasm(file string, start, end uint64, intel bool) ([]plugin.Inst, error) {
+	seen := map[uint64]bool{}
+	var insts []plugin.Inst
+	for _, l := range o.Prof.Location {
+		if l.Mapping != nil && l.Mapping.File == file && l.Address >= start && l.Address < end && !seen[l.Address] {
+			seen[l.Address] = true
+			insts = append(insts, plugin.Inst{Addr: l.Address, Text: fmt.Sprintf("insn_%x", l.Address)})
+		}
+	}
+	sort.Slice(insts, func(i, j int) bool { return insts[i].Addr < insts[j].Addr })
+	return insts, nil
+}
+
+func (f *fakeObjFile) Name() string                        { return f.name }
+func (f *fakeObjFile) ObjAddr(addr uint64) (uint64, error) { return addr, nil }
+func (f *fakeObjFile) BuildID() string                     { return f.m.BuildID }
+func (f *fakeObjFile) Close() error                        { return nil }
+func (f *fakeObjFile) SourceLine(addr uint64) ([]plugin.Frame, error) {
+	return nil, nil
+}
+
+// Symbols implements plugin.ObjFile: one symbol per function name seen as outermost frame of a
+// location of this mapping, spanning those locations' addresses.
+func (f *fakeObjFile) Symbols(r *regexp.Regexp, addr uint64) ([]*plugin.Sym, error) {
+	type span struct{ lo, hi uint64 }
+	spans := map[string]*span{}
+	for _, l := range f.o.Prof.Location {
+		if l.Mapping != f.m || len(l.Line) == 0 {
+			continue
+		}
+		fn := l.Line[len(l.Line)-1].Function
+		if fn == nil || fn.Name == "" {
+			continue
+		}
+		sp := spans[fn.Name]
+		if sp == nil {
+			sp = &span{l.Address, l.Address}
+			spans[fn.Name] = sp
+		}
+		if l.Address < sp.lo {
+			sp.lo = l.Address
+		}
+		if l.Address > sp.hi {
+			sp.hi = l.Address
+		}
+	}
+	var names []string
+	for n := range spans {
+		names = append(names, n)
+	}
+	sort.Strings(names)
+	var out []*plugin.Sym
+	// plus one symbol spanning the whole mapping, so unsymbolized addresses are listed too
+	if all := "all_" + filepath.Base(f.name); r == nil || r.MatchString(all) || addr != 0 {
+		out = append(out, &plugin.Sym{Name: []string{all}, File: f.name, Start: f.m.Start, End: f.m.Limit})
+	}
+	for _, n := range names {
+		sp := spans[n]
+		if (r == nil || r.MatchString(n)) || (addr != 0 && addr >= sp.lo && addr <= sp.hi) {
+			out = append(out, &plugin.Sym{Name: []string{n}, File: f.name, Start: sp.lo, End: sp.hi + 1})
+		}
+	}
+	return out, nil
+}
+
+// ReportObj is Report with an object tool.
+func ReportObj(obj plugin.ObjTool, profs map[string]*profile.Profile, srcs []string, bools map[string]bool, strs map[string]string, ints map[string]int) (string, *UI, Result) {
+	reportObj = obj
+	defer func() { reportObj = nil }()
+	return Report(profs, srcs, bools, strs, ints, nil, nil)
+}
+
+var reportObj plugin.ObjTool
+
 // Report runs a one-shot report and returns the bytes written to the output file.
 // bools must contain the report format (e.g. "top": true). Granularity and sort are always
 // given explicitly so nothing depends on earlier runs in this process.
@@ -296,7 +401,7 @@ func Report(profs map[string]*profile.Profile, srcs []string, bools map[string]b
 	for k, v := range strs {
 		st[k] = v
 	}
-	s := &Session{Flags: &Flags{Bools: b, Strs: st, Ints: ints, Floats: floats, Lists: lists, Args: srcs}, Fetch: &MapFetcher{Profiles: profs}}
+	s := &Session{Flags: &Flags{Bools: b, Strs: st, Ints: ints, Floats: floats, Lists: lists, Args: srcs}, Fetch: &MapFetcher{Profiles: profs}, Obj: reportObj}
 	res := s.Run()
 	out := ""
 	if bf := s.Writer.Files["out"]; bf != nil {
